@@ -43,6 +43,10 @@ type ConBody struct {
 	Autocommit []bool  `json:"autocommit"`
 	Ops        []ConOp `json:"ops"`
 	ForceMerge bool    `json:"force_merge"`
+	// Crash: runs without a forced merge may end with one more transaction (a parent, a child that
+	// references it, a row with a fresh unique key) whose COMMIT the server does not survive (crash.go)
+	Crash bool      `json:"crash,omitempty"`
+	Only  *SQLCrash `json:"only,omitempty"`
 }
 
 func (CON) Generate(seed uint64, tier string) *core.Scenario {
@@ -151,6 +155,7 @@ func (CON) Generate(seed uint64, tier string) *core.Scenario {
 	for s := 0; s < b.NSess; s++ {
 		b.Ops = append(b.Ops, ConOp{S: s, Kind: "commit"})
 	}
+	b.Crash = !b.ForceMerge && r.Chance(2, 3)
 	raw, _ := json.Marshal(b)
 	return &core.Scenario{Property: "C24", Harness: "C24", Seed: seed, Tier: tier, Body: raw}
 }
@@ -513,6 +518,62 @@ func (CON) Execute(t *testing.T, sc *core.Scenario) *core.Result {
 				if merr != nil {
 					res.Probe("forced_merge_failed:" + firstLine(merr)[:min(60, len(firstLine(merr)))])
 				}
+			}
+		}
+	}
+	if b.Crash && !b.ForceMerge && !res.Violated() && res.Panic == "" {
+		// a transaction that is only legal as a whole: a new parent, a child referencing it, and the
+		// deletion of an older parent together with its children; the server dies in its COMMIT
+		cs, err := w.NewSession(ctx, false)
+		if err == nil {
+			ok := true
+			for _, q := range []string{
+				"DELETE FROM child WHERE pid = 0",
+				"DELETE FROM parent WHERE id = 0",
+				"INSERT INTO parent VALUES (77, 0, 77)",
+				"INSERT INTO child VALUES (77, 77, NULL, 1, 0, NULL, NULL, NULL)",
+			} {
+				if _, err := cs.Exec(ctx, q); err != nil {
+					res.Probe("crash_phase_statement_refused")
+					ok = false
+					break
+				}
+			}
+			if ok {
+				start := sos.LogLen()
+				_, cerr := cs.Exec(ctx, "COMMIT")
+				end := sos.LogLen()
+				if cerr != nil {
+					res.Probe("crash_phase_commit_refused")
+				}
+				log := append([]simos.Event(nil), sos.Log()...)
+				fk2 := fk2Main
+				w.Close()
+				simos.Uninstall()
+				cases := sqlCrashCases(log, start, end, "test", 8, int(sc.Seed%7), b.Only)
+				forEachCrashImage(ctx, res, log, sc.Seed, cases, "a transaction's COMMIT", func(w2 *World, c sqlCrashCase, desc string, pin func(*core.Violation)) {
+					s2, err := w2.NewSession(ctx, true)
+					if err != nil {
+						pin(res.Violate("server-unusable-after-crash", "what=session", 0, "%s: %s", desc, firstLine(err)))
+						return
+					}
+					p, err1 := s2.Exec(ctx, "SELECT id, v, code FROM parent")
+					ch, err2 := s2.Exec(ctx, "SELECT id, pid, u, n, m, pc, a, b FROM child")
+					if err1 != nil || err2 != nil {
+						pin(res.Violate("committed-data-unreadable-after-crash", "variant="+c.Variant.Name, 0, "%s: %v %v", desc, err1, err2))
+						return
+					}
+					for _, v := range evalConstraints(p, ch, fk2) {
+						pin(res.Violate("committed-data-violates-constraint", "constraint="+v.Kind+";after=crash", 0, "%s: the recovered tables violate %s (child/row %s)\nparent:\n%s\nchild (id|pid|u|n|m|pc|a|b):\n%s", desc, v.Kind, v.ID, indent(rowsKey(p)), indent(rowsKey(ch))))
+						break
+					}
+					res.Probe("constraints_hold_after_crash")
+				}, func(c SQLCrash) []byte {
+					b2 := b
+					b2.Only = &c
+					raw, _ := json.Marshal(b2)
+					return raw
+				})
 			}
 		}
 	}
